@@ -3,11 +3,10 @@ CONSTANTS
   NumOrders = 23
   PageUnits = 8192
   MaxPages = 65536
-  Inits <- TInits
+  Inits <- EdgeInits
   ModelData = FALSE
   AllocFailPoisons <- OnlyTrue
   TopFits <- OnlyTrue
-  InvalidWeight = 1
   Depth = 24
 INVARIANT Dump
 CHECK_DEADLOCK FALSE
